@@ -117,6 +117,35 @@ def check_grid(case):
         steps = {b - a for a, b in zip(xs, xs[1:])}
         if any(not kw['unit_size_min'] <= s <= kw['unit_size_max'] for s in steps):
             return ('unit-size', 'grid unit %s' % sorted(steps), 'within [%d, %d]' % (kw['unit_size_min'], kw['unit_size_max']))
+    # the grid is regular and repeats over the WHOLE frame: along each axis the starts of the non-empty holes form
+    # an arithmetic progression  shift, shift + unit, ...  that stops only where the next start would leave the frame,
+    # every combination of the three progressions is present, and a configured holes_number is reached
+    live = [h for h in holes if h[0] < h[3] and h[1] < h[4] and h[2] < h[5]]
+    starts = []
+    for a, n, nm in ((0, W, 'x'), (1, H, 'y'), (2, D, 'z')):
+        st = sorted({h[a] for h in live})
+        unit = None
+        if not (kw.get('unit_size_min') and kw.get('unit_size_max')):
+            hn = kw.get('holes_number_' + nm)
+            if hn is not None:
+                unit = n // hn
+            elif nm == 'x':
+                unit = max(2, W // 10)
+            else:
+                ux = (W // kw['holes_number_x']) if kw.get('holes_number_x') is not None else max(2, W // 10)
+                unit = max(min(ux, n), 2)
+        elif len(st) >= 2:
+            unit = st[1] - st[0]
+        if unit is not None and st:
+            want = list(range(st[0], n, unit))
+            if st != want or st[0] >= unit:
+                return ('grid-coverage', '%s starts %s' % (nm, st), 'every %d voxels from a shift below the unit up to the end of the %d-voxel axis: %s' % (unit, n, want))
+            hn = kw.get('holes_number_' + nm)
+            if hn is not None and not (kw.get('unit_size_min') and kw.get('unit_size_max')) and len(st) < hn:
+                return ('grid-count', '%d hole layers along %s' % (len(st), nm), 'at least holes_number_%s = %d' % (nm, hn))
+        starts.append(st)
+    if len(live) != len(set(live)) or len(set(live)) != len(starts[0]) * len(starts[1]) * len(starts[2]):
+        return ('grid-product', '%d non-empty holes' % len(set(live)), 'all %d x %d x %d combinations' % tuple(len(q) for q in starts))
     reg = region(shape, holes)
     regc = reg[..., None] if img.ndim == 4 else reg
     exp = np.where(regc, np.array(kw.get('fill_value', 0)).astype(img.dtype), img)
